@@ -141,3 +141,127 @@ func VerifC12AbacoDemux(opt AbacoUnwrapOptions, firstchan, nchan int, calls [][]
 	}
 	return out, nil
 }
+
+// VerifC12RoachStream drives the place where roach.go uses the unwrappers: a RoachDevice samples one
+// packet (samplePacket builds the unwrappers), then readPackets() receives UDP packets over loopback,
+// bundles whatever arrived within its 100 ms window into a block, de-interleaves the channels and unwraps
+// each one.  data[ch] are the raw samples of channel ch; they are sent in packets of pktSamples samples
+// per channel.  Returns, per channel, the concatenation of the blocks' segments (block boundaries depend
+// on timing; by the property the concatenation does not).
+func VerifC12RoachStream(opt AbacoUnwrapOptions, data [][]uint16, pktSamples int) (out [][]uint16, rejected bool, err error) {
+	if e := opt.isvalid(); e != nil {
+		return nil, true, nil
+	}
+	nchan := len(data)
+	if nchan < 1 {
+		return nil, false, fmt.Errorf("verif: need at least one channel")
+	}
+	n := len(data[0])
+	if pktSamples < 1 {
+		pktSamples = 1
+	}
+	dev, err := NewRoachDevice("127.0.0.1:0", 40000.0)
+	if err != nil {
+		return nil, false, err
+	}
+	dev.unwrapOpts = opt
+	sender, err := net.DialUDP("udp", nil, dev.conn.LocalAddr().(*net.UDPAddr))
+	if err != nil {
+		dev.conn.Close()
+		return nil, false, err
+	}
+	defer sender.Close()
+	mkPacket := func(first, count int, sampnum uint64) []byte {
+		pkt := make([]byte, 16+2*nchan*count)
+		pkt[1] = 1
+		binary.BigEndian.PutUint16(pkt[2:], uint16(nchan))
+		binary.BigEndian.PutUint16(pkt[4:], uint16(count))
+		binary.BigEndian.PutUint16(pkt[6:], 1) // 2-byte words
+		binary.BigEndian.PutUint64(pkt[8:], sampnum)
+		for j := 0; j < count; j++ {
+			for ch := 0; ch < nchan; ch++ {
+				var v uint16
+				if first+j < n {
+					v = data[ch][first+j]
+				}
+				binary.BigEndian.PutUint16(pkt[16+2*(ch+nchan*j):], v)
+			}
+		}
+		return pkt
+	}
+	// the packet that Sample() would consume: its data are not used, only nchan and the sample number
+	sampled := false
+	for attempt := 0; attempt < 5 && !sampled; attempt++ {
+		if _, err = sender.Write(mkPacket(n, 1, 0)); err != nil {
+			continue
+		}
+		err = func() (e error) {
+			defer func() {
+				if r := recover(); r != nil {
+					e = fmt.Errorf("verif: samplePacket panicked: %v", r)
+				}
+			}()
+			return dev.samplePacket()
+		}()
+		sampled = err == nil && len(dev.unwrap) == nchan
+	}
+	if !sampled {
+		dev.conn.Close()
+		if err == nil {
+			err = fmt.Errorf("verif: samplePacket built %d unwrappers, want %d", len(dev.unwrap), nchan)
+		}
+		return nil, false, err
+	}
+	nextBlock := make(chan *dataBlock)
+	go dev.readPackets(nextBlock)
+	stop := func() {
+		dev.conn.Close()
+		go func() { // readPackets reports the closed socket as an error block, then returns
+			for b := range nextBlock {
+				if b.err != nil {
+					return
+				}
+			}
+		}()
+	}
+	sampnum := uint64(dev.nextS)
+	for first := 0; first < n; first += pktSamples {
+		m := pktSamples
+		if m > n-first {
+			m = n - first
+		}
+		if _, err = sender.Write(mkPacket(first, m, sampnum)); err != nil {
+			stop()
+			return nil, false, err
+		}
+		sampnum += uint64(m)
+	}
+	out = make([][]uint16, nchan)
+	got := 0
+	timeout := time.NewTimer(20 * time.Second)
+	defer timeout.Stop()
+	for got < n {
+		select {
+		case b := <-nextBlock:
+			if b.err != nil {
+				dev.conn.Close()
+				return nil, false, b.err
+			}
+			if len(b.segments) != nchan {
+				stop()
+				return nil, false, fmt.Errorf("verif: block has %d segments, want %d", len(b.segments), nchan)
+			}
+			for ch := range b.segments {
+				for _, v := range b.segments[ch].rawData {
+					out[ch] = append(out[ch], uint16(v))
+				}
+			}
+			got += b.nSamp
+		case <-timeout.C:
+			stop()
+			return nil, false, fmt.Errorf("verif: only %d of %d samples arrived through readPackets", got, n)
+		}
+	}
+	stop()
+	return out, false, nil
+}
